@@ -125,6 +125,48 @@ def replay_doc(binary, cmd, seed, tier, case, what):
                 case=case)
 
 
+# ------------------------------------------------------------------------------------------------ long-lived objects
+
+def reuse_stage(chk, seed, tier):
+    """One Prover, one Verifier and one TPS signer object per rank taken through several key epochs (Init / SetShareData again
+    on the SAME objects: same key twice, another key of the same shape, other party lists / thresholds / message lengths, back to
+    the first key); every verdict must be the honest one AND equal to the verdict of freshly constructed objects on the same
+    input.  The model has no object state, so this family is what ties "keys are arguments" to the code.  Returns #records."""
+    rows = harness(chk, "ps", "reuse", seed, tier, "reuse.jsonl")
+    if rows is None:
+        return 0
+    hits = 0
+    for c in rows:
+        bad = None
+        if c["step"] == "setup":
+            chk.violation("harness_setup.json", dict(what="harness could not set the scenario up", case=c), no_input=True)
+            continue
+        if c.get("panic"):
+            bad = "panic"
+        elif c["reused"] != c["fresh"]:
+            bad = "the re-initialised object %s, a fresh object %s" % ("accepts" if c["reused"] else "refuses: " + c["err_reused"],
+                                                                       "accepts" if c["fresh"] else "refuses: " + c["err_fresh"])
+        elif c["reused"] != c["expect"]:
+            bad = "%s but must be %s (%s)" % ("accepted" if c["reused"] else "refused", "accepted" if c["expect"] else "refused", c["err_reused"])
+        if bad:
+            chk.cov["monitor_hits"] += 1
+            if hits < 3:
+                hits += 1
+                what = "long-lived objects, initialisation #%d with key %s (N=%d t=%d L=%d parties %s), step %s%s: %s" % (
+                    c["epoch"], c["key"], c["N"], c["t"], c["L"], c["ids"], c["step"],
+                    " signers of ranks %s" % c["signers"] if c.get("signers") else (" signer rank %s" % c["signer"] if c.get("signer") else ""), bad)
+                chk.monitor_hit("", "reuse_%d.json" % hits, replay_doc("ps", "reuse", seed, tier, c, what), what)
+                chk.cov["monitor_hits"] -= 1
+    chk.cov["long_lived_objects"] = dict(
+        records=len(rows), initialisations=len(set(c["epoch"] for c in rows)),
+        keys=sorted(set(c["key"] for c in rows)), by_step=dict(collections.Counter(c["step"] for c in rows)),
+        reused_equals_fresh=sum(1 for c in rows if c["reused"] == c["fresh"]),
+        note="the same Prover / Verifier / TPS signer objects re-initialised (Prover.Init, Verifier.Init, TPS.Init + SetShareData) across key "
+             "epochs; each verdict compared with the honest expectation and with freshly constructed objects on the same input; a proof of "
+             "the previous epoch is also verified under the new key (accepted only when the key is the same)")
+    return len(rows)
+
+
 # ------------------------------------------------------------------------------------------------ C08
 
 def run_c08(chk, seed, tier):
@@ -160,7 +202,8 @@ def run_c08(chk, seed, tier):
         chk.violation("corr_complete.json", dict(what="model (Corr/PSCorr.v: accept) and implementation differ on this honest step; "
                                                       "the theorems of Props/C08.v rest on this correspondence", case=mism[0]), no_input=True)
     dk = [c for c in rows if c["kind"] == "dkg"]
-    chk.cov["evaluations"] = len(rows) + sum(c.get("scalars", 0) for c in dk)
+    n_reuse = reuse_stage(chk, seed, tier)
+    chk.cov["evaluations"] = len(rows) + sum(c.get("scalars", 0) for c in dk) + n_reuse
     chk.cov["distinct_nontrivial"] = len(set(vlib.canon_hash([c["kind"], c.get("N"), c.get("t"), c.get("L"), c.get("pattern"), c.get("signer"),
                                                               c.get("signers"), c.get("order"), c.get("ids")]) for c in rows if c.get("accept") or c.get("ok")))
     chk.cov["rule"] = ("one real in-process TPS key generation per (N,t,L) (N<=4, all t, L=1..4, shuffled start order) with parties 1..N, plus one per party identifier "
@@ -290,7 +333,8 @@ def run_c09(chk, seed, tier):
         chk.violation("corr_perturb.json", dict(what="model (Corr/PSCorr.v) and implementation give different verdicts on this scenario; "
                                                      "the theorems of Props/C09.v rest on this correspondence", case=mism[0],
                                                 all_mismatching=[[m["cls"], m.get("comp"), m["pert"], m["idx"]] for m in mism[:20]]), no_input=True)
-    chk.cov["evaluations"] = len(rows) + len(mal)
+    n_reuse = reuse_stage(chk, seed, tier)
+    chk.cov["evaluations"] = len(rows) + len(mal) + n_reuse
     chk.cov["distinct_nontrivial"] = len(set(vlib.canon_hash([c["cls"], c.get("N"), c.get("t"), c.get("L"), c.get("comp"), c.get("idx"), c.get("pert"),
                                                               c.get("path"), c.get("signers"), c.get("makers")]) for c, _ in rows if c["cls"] != "setup"))
     chk.cov["rule"] = ("perturbation catalogue on real objects of real key generations: every field of a BlindSignature request (cm,u,mPrime,a_i,b_i, "
